@@ -514,6 +514,22 @@ func c16Test(fn string, quick, thorough int) func(*testing.T) {
 			} else {
 				x = genExpArg(t, fn)
 			}
+			if ir(t, 0, 9, "pow2lead") == 0 {
+				// a significand running along the digits of 2^64 .. 2^256 (see genPow2Lead): the 192-bit working
+				// format scales every argument by powers of ten until its top word is nearly full
+				c := genPow2Lead(t)
+				nd := ref.DecLen(c)
+				switch {
+				case !c16Fns[fn].log:
+					x = DFin(genSign(t), c, ir(t, -40, 4, "lead")-nd)
+				case fn == "Log1p" && rapid.Bool().Draw(t, "neg"):
+					x = DFin(true, c, ir(t, -40, -1, "lead")-nd)
+				case rapid.Bool().Draw(t, "wide"):
+					x = DFin(false, c, genExp(t))
+				default:
+					x = DFin(false, c, clampExp(ir(t, -60, 70, "lead")-nd))
+				}
+			}
 			a := c16Args{Fn: fn, X: x}
 			if ir(t, 0, 2, "otherMode") == 0 {
 				a.Mode = uint8(ir(t, 1, 5, "mode"))
